@@ -27,7 +27,7 @@ BOUNDS = {"quick": "all 48 codes x 2 RAS sizes (non-cubic, up to 3x2x4) with chu
                    "by the chunk depth; 1-2 channel directories and RGB slices; uint8/uint16; 4 configurations through main(argv): slice "
                    "directories listed in an adversarial order (names whose lexicographic, numeric and creation orders differ), lower-case "
                    "orientation code, conversion run twice",
-          "thorough": "all 48 codes x 6 sizes x 3 chunk sizes"}
+          "thorough": "all 48 codes x 6 sizes/chunk sizes x 6 channel layouts (1-2 directories, grey and RGB mixed), and all 48 codes through main(argv)"}
 OUTSIDE = ["TIFF/PNG decoding (scikit-image)", "pixel type conversion beyond uint8/uint16 identity (C11)"]
 
 CODES = ["".join(p) for t in itertools.product("LR", "AP", "IS") for p in itertools.permutations(t)]
@@ -43,7 +43,7 @@ def configs(tier, seed):
     for i, code in enumerate(CODES):
         picks = sizes if tier == "thorough" else [sizes[i % 3], sizes[3 + i % 3]]
         for j, (size, cs) in enumerate(picks):
-            mode = ("grey", "two_dirs", "rgb")[(i + j) % 3]
+            mode = ("grey", "two_dirs", "rgb")[(i + j) % 3] if tier == "quick" else ("grey", "two_dirs", "rgb", "two_rgb", "rgb_grey", "grey_rgb")[(i + j) % 6]
             out.append(dict(harness="orient", code=code, size=list(size), cs=list(cs), mode=mode,
                             dtype=("uint8", "uint16")[(i + j) % 2], cost=1))
     # through main(argv): directory listing, lexicographic slice order, lower-case orientation code; conversion run twice
@@ -54,6 +54,10 @@ def configs(tier, seed):
     for code, size, cs, mode in (("RAS", (2, 2, 5), (2, 2, 2), "grey"), ("LIP", (3, 4, 2), (2, 2, 2), "two_dirs"), ("SPL", (4, 2, 2), (2, 2, 2), "rgb"),
                                  ("AIR", (2, 3, 4), (2, 2, 3), "grey")):
         out.append(dict(harness="orient", code=code, size=list(size), cs=list(cs), mode=mode, dtype="uint8", via_main=True, repeat=True, cost=2))
+    if tier == "thorough":
+        for i, code in enumerate(CODES):
+            out.append(dict(harness="orient", code=code, size=[2, 3, 4], cs=[2, 2, 3], mode=("grey", "rgb", "two_dirs")[i % 3], dtype="uint16",
+                            via_main=True, repeat=bool(i % 2), cost=2))
     return out
 
 
